@@ -298,16 +298,6 @@ theorem inCls_digit (c : Nat) : Re.inCls false [(48, 57)] c = isDigit c := by
 theorem digit_ms_cons (c : Nat) (t : Cps) (h : isDigit c = true) : digitRe.ms (c :: t) = [1] := by
   simp [digitRe, Re.ms, inCls_digit, h]
 
-theorem digit_ms_stop (s : Cps) (h : Sep s) : digitRe.ms s = [] := by
-  rcases h with rfl | ⟨rest, rfl⟩
-  · simp [digitRe, Re.ms]
-  · simp [digitRe, Re.ms, Re.inCls]
-
-theorem star_digit_ms (ds stop : Cps) (hd : ∀ c ∈ ds, isDigit c = true) (hs : Sep stop) :
-    (Re.star digitRe true).ms (ds ++ stop) = countdown ds.length := by
-  simp only [Re.ms]
-  exact starMs_run digitRe.ms isDigit digit_ms_cons stop (digit_ms_stop stop hs) ds _ hd (by simp; omega)
-
 theorem signOpt_ms (s : Cps) (h : ∀ c t, s = c :: t → c ≠ 43 ∧ c ≠ 45) : signOpt.ms s = [0] := by
   cases s with
   | nil => simp [signOpt, Re.ms, Re.repMs]
@@ -332,11 +322,6 @@ theorem headIn_drop (Q : Nat → Prop) (ds stop : Cps) (hd : ∀ c ∈ ds, Q c) 
       simp only [List.cons_append, List.drop_succ_cons]
       exact ih (fun x hx => hd x (List.mem_cons_of_mem _ hx)) l (by simp at hl; omega)
 
-theorem sep_headIn {stop : Cps} (h : Sep stop) : HeadIn (fun c => isDigit c = true ∨ c = 32) stop := by
-  rcases h with rfl | ⟨rest, rfl⟩
-  · left; rfl
-  · right; exact ⟨32, rest, rfl, Or.inr rfl⟩
-
 theorem seq_cls_ms_nil_of_head (rs : List (Nat × Nat)) (Y : Re) (s : Cps)
     (h : HeadIn (fun c => Re.inCls false rs c = false) s) : (Re.seq (Re.cls false rs) Y).ms s = [] := by
   rcases h with rfl | ⟨c, t, rfl, hc⟩
@@ -354,17 +339,46 @@ theorem headIn_mono {Q R : Nat → Prop} {s : Cps} (h : HeadIn Q s) (hqr : ∀ c
   · left; rfl
   · right; exact ⟨c, t, rfl, hqr c hc⟩
 
-theorem digit_or_space_not (a : Nat) (ha : ¬ (48 ≤ a ∧ a ≤ 57)) (ha2 : a ≠ 32) (c : Nat)
-    (h : isDigit c = true ∨ c = 32) : Re.inCls false [(a, a)] c = false := by
-  rw [inCls_single]
-  simp only [isDigit, Bool.and_eq_true, decide_eq_true_eq] at h
-  simp; omega
-
 theorem seq_ms_left_zero {a b : Re} {s : Cps} (h : a.ms s = [0]) : (Re.seq a b).ms s = b.ms s := by
   simp [Re.ms, h]
 
-theorem numA_ms (d : Nat) (ds stop : Cps) (hd : ∀ c ∈ d :: ds, isDigit c = true) (hs : Sep stop) :
-    numA.ms (d :: ds ++ stop) = [] := by
+/-- what may follow a run of digits: the end of the text or a code point from the ranges `cs`, none of which is a
+digit or a full stop -/
+structure NumStop (cs : List (Nat × Nat)) (stop : Cps) : Prop where
+  head : HeadIn (fun c => inR cs c = true) stop
+  nodigit : clsFails false [(48, 57)] cs = true
+  nodot : clsFails false [(46, 46)] cs = true
+
+theorem sep_numStop {stop : Cps} (h : Sep stop) : NumStop [(32, 32)] stop := by
+  refine ⟨?_, by decide, by decide⟩
+  rcases h with rfl | ⟨rest, rfl⟩
+  · left; rfl
+  · right; exact ⟨32, rest, rfl, by decide⟩
+
+theorem digit_ms_stop {cs : List (Nat × Nat)} (s : Cps) (h : NumStop cs s) : digitRe.ms s = [] := by
+  apply cls_ms_nil_of_head
+  exact headIn_mono h.head (fun c hc => clsFails_sound false _ cs c h.nodigit hc)
+
+theorem star_digit_ms {cs : List (Nat × Nat)} (ds stop : Cps) (hd : ∀ c ∈ ds, isDigit c = true) (hs : NumStop cs stop) :
+    (Re.star digitRe true).ms (ds ++ stop) = countdown ds.length := by
+  simp only [Re.ms]
+  exact starMs_run digitRe.ms isDigit digit_ms_cons stop (digit_ms_stop stop hs) ds _ hd (by simp; omega)
+
+theorem inR_cons_digit {cs : List (Nat × Nat)} (c : Nat) (h : isDigit c = true) : inR ((48, 57) :: cs) c = true := by
+  simp only [isDigit, Bool.and_eq_true, decide_eq_true_eq] at h
+  simp [inR, h.1, h.2]
+
+theorem inR_cons_of {cs : List (Nat × Nat)} (q : Nat × Nat) (c : Nat) (h : inR cs c = true) : inR (q :: cs) c = true := by
+  simp only [inR, List.any_cons, Bool.or_eq_true]; right; exact h
+
+/-- every position of digits ++ stop up to the end of the digits starts with a digit or a stop code point -/
+theorem num_heads {cs : List (Nat × Nat)} (ds stop : Cps) (hd : ∀ c ∈ ds, isDigit c = true) (hs : NumStop cs stop)
+    (l : Nat) (hl : l ≤ ds.length) : HeadIn (fun c => inR ((48, 57) :: cs) c = true) ((ds ++ stop).drop l) :=
+  headIn_drop _ ds stop (fun c hc => inR_cons_digit c (hd c hc))
+    (headIn_mono hs.head (fun c hc => inR_cons_of _ c hc)) l hl
+
+theorem numA_ms {cs : List (Nat × Nat)} (d : Nat) (ds stop : Cps) (hd : ∀ c ∈ d :: ds, isDigit c = true)
+    (hs : NumStop cs stop) : numA.ms (d :: ds ++ stop) = [] := by
   have hd0 : isDigit d = true := hd d (by simp)
   have hsign : signOpt.ms (d :: ds ++ stop) = [0] := by
     apply signOpt_ms
@@ -373,6 +387,10 @@ theorem numA_ms (d : Nat) (ds stop : Cps) (hd : ∀ c ∈ d :: ds, isDigit c = t
     obtain ⟨rfl, _⟩ := h
     simp only [isDigit, Bool.and_eq_true, decide_eq_true_eq] at hd0
     omega
+  have hdot : clsFails false [(46, 46)] ((48, 57) :: cs) = true := by
+    have := hs.nodot
+    simp only [clsFails, Bool.false_eq_true, if_false, List.all_cons, Bool.and_eq_true] at this ⊢
+    exact ⟨by decide, this⟩
   have hrest : (Re.seq (Re.star digitRe true) (Re.seq (Re.cls false [(46, 46)]) (Re.seq digitRe (Re.star digitRe true)))).ms
       (d :: ds ++ stop) = [] := by
     apply seq_ms_nil
@@ -380,13 +398,12 @@ theorem numA_ms (d : Nat) (ds stop : Cps) (hd : ∀ c ∈ d :: ds, isDigit c = t
     rw [star_digit_ms (d :: ds) stop hd hs] at hl
     have hle := mem_countdown hl
     apply seq_cls_ms_nil_of_head
-    exact headIn_mono (headIn_drop _ (d :: ds) stop (fun c hc => Or.inl (hd c hc)) (sep_headIn hs) l hle)
-      (digit_or_space_not 46 (by omega) (by omega))
+    exact headIn_mono (num_heads (d :: ds) stop hd hs l hle) (fun c hc => clsFails_sound false _ _ c hdot hc)
   show (Re.seq signOpt _).ms _ = []
   rw [seq_ms_left_zero hsign, hrest]
 
-theorem numB_ms (d : Nat) (ds stop : Cps) (hd : ∀ c ∈ d :: ds, isDigit c = true) (hs : Sep stop) :
-    numB.ms (d :: ds ++ stop) = (countdown ds.length).map (1 + ·) := by
+theorem numB_ms {cs : List (Nat × Nat)} (d : Nat) (ds stop : Cps) (hd : ∀ c ∈ d :: ds, isDigit c = true)
+    (hs : NumStop cs stop) : numB.ms (d :: ds ++ stop) = (countdown ds.length).map (1 + ·) := by
   have hd0 : isDigit d = true := hd d (by simp)
   have hsign : signOpt.ms (d :: ds ++ stop) = [0] := by
     apply signOpt_ms
@@ -405,13 +422,13 @@ theorem numB_ms (d : Nat) (ds stop : Cps) (hd : ∀ c ∈ d :: ds, isDigit c = t
   show List.map _ ((digitRe.star true).ms (ds ++ stop)) = _
   rw [hstar]
 
-theorem numRe_ms (d : Nat) (ds stop : Cps) (hd : ∀ c ∈ d :: ds, isDigit c = true) (hs : Sep stop) :
-    numRe.ms (d :: ds ++ stop) = (countdown ds.length).map (1 + ·) := by
+theorem numRe_ms {cs : List (Nat × Nat)} (d : Nat) (ds stop : Cps) (hd : ∀ c ∈ d :: ds, isDigit c = true)
+    (hs : NumStop cs stop) : numRe.ms (d :: ds ++ stop) = (countdown ds.length).map (1 + ·) := by
   show numA.ms _ ++ numB.ms _ = _
   rw [numA_ms d ds stop hd hs, numB_ms d ds stop hd hs]; rfl
 
-theorem numRe_first (d : Nat) (ds stop : Cps) (hd : ∀ c ∈ d :: ds, isDigit c = true) (hs : Sep stop) :
-    numRe.first (d :: ds ++ stop) = some (d :: ds).length := by
+theorem numRe_first {cs : List (Nat × Nat)} (d : Nat) (ds stop : Cps) (hd : ∀ c ∈ d :: ds, isDigit c = true)
+    (hs : NumStop cs stop) : numRe.first (d :: ds ++ stop) = some (d :: ds).length := by
   simp only [Re.first, numRe_ms d ds stop hd hs, List.head?_map, head_countdown, Option.map_some, List.length_cons]
   congr 1; omega
 
@@ -421,24 +438,17 @@ theorem ms_nil_of_headIn {cs : List (Nat × Nat)} {r : Re} (hns : noStart cs r =
   · exact ms_nil_of_nonNullable hnn
   · exact noStart_sound hns hc t
 
-/-- after a match of `numRe` on digits + separator, nothing that cannot start with a digit or a space follows -/
-theorem num_then_nil (X : Re) (hns : noStart [(48, 57), (32, 32)] X = true) (hnn : X.nonNullable = true)
-    (d : Nat) (ds stop : Cps) (hd : ∀ c ∈ d :: ds, isDigit c = true) (hs : Sep stop) :
-    (Re.seq numRe X).ms (d :: ds ++ stop) = [] := by
+/-- after a match of `numRe` on digits + stop, nothing that cannot start with a digit or a stop code point follows -/
+theorem num_then_nil {cs : List (Nat × Nat)} (X : Re) (hns : noStart ((48, 57) :: cs) X = true)
+    (hnn : X.nonNullable = true) (d : Nat) (ds stop : Cps) (hd : ∀ c ∈ d :: ds, isDigit c = true)
+    (hs : NumStop cs stop) : (Re.seq numRe X).ms (d :: ds ++ stop) = [] := by
   apply seq_ms_nil
   intro l hl
   rw [numRe_ms d ds stop hd hs] at hl
   simp only [List.mem_map] at hl
   obtain ⟨k, hk, rfl⟩ := hl
   have hle : 1 + k ≤ (d :: ds).length := by have := mem_countdown hk; simp; omega
-  apply ms_nil_of_headIn hns hnn
-  have := headIn_drop (fun c => isDigit c = true ∨ c = 32) (d :: ds) stop (fun c hc => Or.inl (hd c hc))
-    (sep_headIn hs) (1 + k) hle
-  refine headIn_mono this ?_
-  intro c hc
-  simp only [inR, List.any_cons, List.any_nil, Bool.or_false, Bool.or_eq_true, Bool.and_eq_true, decide_eq_true_eq]
-  simp only [isDigit, Bool.and_eq_true, decide_eq_true_eq] at hc
-  omega
+  exact ms_nil_of_headIn hns hnn (num_heads (d :: ds) stop hd hs (1 + k) hle)
 
 theorem first_none_of_ms_nil {r : Re} {s : Cps} (h : r.ms s = []) : r.first s = none := by simp [Re.first, h]
 
@@ -455,11 +465,11 @@ theorem scan_number (doC : Bool) (d : Nat) (ds stop : Cps) (hd : ∀ c ∈ d :: 
   rw [hsplit]
   rw [List.cons_append, scan_false_reject hd0 _ _ _ (by decide)]
   rw [scan_false_none (first_none_of_ms_nil (by
-    rw [reDIMENSION_eq]; exact num_then_nil reIDENT (by decide) (by decide) d ds stop hd hs))]
+    rw [reDIMENSION_eq]; exact num_then_nil reIDENT (by decide) (by decide) d ds stop hd (sep_numStop hs)))]
   rw [scan_false_none (first_none_of_ms_nil (by
-    rw [rePERCENTAGE_eq]; exact num_then_nil _ (by decide) (by decide) d ds stop hd hs))]
+    rw [rePERCENTAGE_eq]; exact num_then_nil _ (by decide) (by decide) d ds stop hd (sep_numStop hs)))]
   apply scan_false_hit
-  · rw [reNUMBER_eq]; exact numRe_first d ds stop hd hs
+  · rw [reNUMBER_eq]; exact numRe_first d ds stop hd (sep_numStop hs)
   · simp [identContinue]
 
 /-! ## first-character analysis: exactly one code point -/
@@ -629,6 +639,76 @@ theorem scan_fixed (doC : Bool) (name : String) (w : Cps) (k : Nat) (h : (name, 
       simpa using this
     · simp [identContinue, hname]
 
+/-! ## PERCENTAGE, DIMENSION, HASH classes -/
+
+theorem drop_length_append (a b : Cps) : (a ++ b).drop a.length = b := by simp
+
+/-- **PERCENTAGE class**: ASCII digits followed by `%` -/
+theorem scan_percentage (doC : Bool) (d : Nat) (ds rest : Cps) (hd : ∀ c ∈ d :: ds, isDigit c = true) :
+    scan false doC (d :: ds ++ 37 :: rest) productions = .hit "PERCENTAGE" ((d :: ds).length + 1) := by
+  have hd0 : inR [(48, 57)] d = true := by
+    have := hd d (by simp); simpa [inR, isDigit] using this
+  have hs : NumStop [(37, 37)] (37 :: rest) :=
+    ⟨Or.inr ⟨37, rest, rfl, by decide⟩, by decide, by decide⟩
+  have hsplit : productions = productions.take 5 ++
+      (("DIMENSION", reDIMENSION) :: ("PERCENTAGE", rePERCENTAGE) :: productions.drop 7) := by decide
+  rw [hsplit, List.cons_append, scan_false_reject hd0 _ _ _ (by decide)]
+  rw [scan_false_none (first_none_of_ms_nil (by
+    rw [reDIMENSION_eq]; exact num_then_nil reIDENT (by decide) (by decide) d ds _ hd hs))]
+  apply scan_false_hit
+  · rw [rePERCENTAGE_eq]
+    apply first_seq_some (numRe_first d ds _ hd hs)
+    rw [drop_length_append, first_cls_cons]
+    decide
+  · simp [identContinue]
+
+/-- **DIMENSION class**: ASCII digits followed by a plain identifier (the unit) -/
+theorem scan_dimension (doC : Bool) (d : Nat) (ds : Cps) (c : Nat) (cs stop : Cps)
+    (hd : ∀ x ∈ d :: ds, isDigit x = true) (hc : inR identStart c = true)
+    (hcs : ∀ x ∈ cs, inR identRest x = true) (hst : Sep stop) :
+    scan false doC (d :: ds ++ (c :: cs ++ stop)) productions = .hit "DIMENSION" ((d :: ds).length + (c :: cs).length) := by
+  have hd0 : inR [(48, 57)] d = true := by
+    have := hd d (by simp); simpa [inR, isDigit] using this
+  have hs : NumStop identStart (c :: cs ++ stop) :=
+    ⟨Or.inr ⟨c, cs ++ stop, rfl, hc⟩, by decide, by decide⟩
+  have hsplit : productions = productions.take 5 ++ (("DIMENSION", reDIMENSION) :: productions.drop 6) := by decide
+  rw [hsplit, List.cons_append, scan_false_reject hd0 _ _ _ (by decide)]
+  apply scan_false_hit
+  · rw [reDIMENSION_eq]
+    apply first_seq_some (numRe_first d ds _ hd hs)
+    rw [drop_length_append]
+    exact ident_first c cs stop hc hcs hst
+  · simp [identContinue]
+
+theorem reHASH_eq : reHASH = Re.seq (Re.cls false [(35, 35)]) (Re.seq nmcharRe (Re.star nmcharRe true)) := by decide
+
+/-- **HASH class**: `#` followed by name code points (letters, digits, `-`, `_`) -/
+theorem scan_hash (doC : Bool) (n : Nat) (ns stop : Cps) (hn : inR identRest n = true)
+    (hns : ∀ x ∈ ns, inR identRest x = true) (hs : Sep stop) :
+    scan false doC (35 :: n :: ns ++ stop) productions = .hit "HASH" (35 :: n :: ns).length := by
+  have hsplit : productions = productions.take 8 ++ (("HASH", reHASH) :: productions.drop 9) := by decide
+  rw [hsplit, List.cons_append, scan_false_reject (cs := [(35, 35)]) (by decide) _ _ _ (by decide)]
+  apply scan_false_hit
+  · have h1 : nmcharRe.ms (n :: (ns ++ stop)) = [1] := exactlyOne_sound identRest n hn nmcharRe (by decide) _
+    have hstar : (Re.star nmcharRe true).ms (ns ++ stop) = countdown ns.length := by
+      show Re.starMs nmcharRe.ms true ((ns ++ stop).length + 1) (ns ++ stop) = _
+      apply starMs_run nmcharRe.ms (fun x => inR identRest x)
+      · intro x t hx; exact exactlyOne_sound identRest x hx nmcharRe (by decide) t
+      · exact ms_nil_of_headIn (cs := [(32, 32)]) (by decide) (by decide) (sep_headIn32 hs)
+      · exact hns
+      · simp; omega
+    rw [reHASH_eq, first_seq_cls_cons]
+    have h35 : Re.inCls false [(35, 35)] 35 = true := by decide
+    simp only [h35, if_true, List.cons_append]
+    show Option.map _ ((List.flatMap _ (nmcharRe.ms (n :: (ns ++ stop)))).head?) = _
+    rw [h1]
+    simp only [List.flatMap_cons, List.flatMap_nil, List.append_nil, List.drop_one]
+    show Option.map _ ((List.map _ ((Re.star nmcharRe true).ms (ns ++ stop))).head?) = _
+    rw [hstar, List.head?_map, head_countdown]
+    simp only [Option.map_some, List.length_cons]
+    congr 1; omega
+  · simp [identContinue]
+
 /-! ## one step of the loop on a scanned lexeme -/
 
 theorem complete_false (s : Cps) (name : String) (found : Cps) : complete false s name found = some ⟨name, found⟩ := by
@@ -651,11 +731,14 @@ theorem unescape_id : ∀ (s : Cps), (∀ c ∈ s, c ≠ 92) → unescape s = s 
       rfl
     rw [this, ih (fun x hx => h x (List.mem_cons_of_mem _ hx))]
 
-theorem valueOf_ident (s found : Cps) (h : ∀ c ∈ found, c ≠ 92) :
-    valueOf s "IDENT" found = some ⟨"IDENT", found, found⟩ := by
-  have h1 : unescTypes.contains "IDENT" = true := by decide
-  have h2 : cleanTypes.contains "IDENT" = false := by decide
+theorem valueOf_unesc (s : Cps) (name : String) (found : Cps) (h1 : unescTypes.contains name = true)
+    (h2 : cleanTypes.contains name = false) (h : ∀ c ∈ found, c ≠ 92) :
+    valueOf s name found = some ⟨name, found, found⟩ := by
   simp only [valueOf, h1, h2, subU_eq_unescape, unescape_id found h, Bool.false_eq_true, if_false, if_true]
+
+theorem valueOf_ident (s found : Cps) (h : ∀ c ∈ found, c ≠ 92) :
+    valueOf s "IDENT" found = some ⟨"IDENT", found, found⟩ :=
+  valueOf_unesc s "IDENT" found (by decide) (by decide) h
 
 /-- one iteration of the loop when the scan hits `name` with `l` code points and the value is the text itself -/
 theorem loop_step (doC : Bool) (fuel : Nat) (w stop : Cps) (line col : Nat) (name : String)
@@ -685,18 +768,27 @@ inductive Lex where
   | ident (c : Nat) (cs : Cps)                     -- IDENT: plain identifier
   | fixed (name : String) (w : Cps) (k : Nat)      -- a match operator or CDO
   | fast (c : Nat)                                 -- one of the single-character tokens `,:;{}>[]`
+  | pct (d : Nat) (ds : Cps)                       -- PERCENTAGE: ASCII digits, `%`
+  | dim (d : Nat) (ds : Cps) (c : Nat) (cs : Cps)  -- DIMENSION: ASCII digits, plain identifier
+  | hash (n : Nat) (ns : Cps)                      -- HASH: `#`, name code points
 
 def Lex.text : Lex → Cps
   | .num d ds => d :: ds
   | .ident c cs => c :: cs
   | .fixed _ w _ => w
   | .fast c => [c]
+  | .pct d ds => d :: ds ++ [37]
+  | .dim d ds c cs => d :: ds ++ c :: cs
+  | .hash n ns => 35 :: n :: ns
 
 def Lex.typ : Lex → String
   | .num _ _ => "NUMBER"
   | .ident _ _ => "IDENT"
   | .fixed name _ _ => name
   | .fast _ => "CHAR"
+  | .pct _ _ => "PERCENTAGE"
+  | .dim _ _ _ _ => "DIMENSION"
+  | .hash _ _ => "HASH"
 
 /-- well-formed lexemes: escape-free spellings of the class -/
 def Lex.WF : Lex → Prop
@@ -704,6 +796,9 @@ def Lex.WF : Lex → Prop
   | .ident c cs => inR identStart c = true ∧ ∀ x ∈ cs, inR identRest x = true
   | .fixed name w k => (name, w, k) ∈ fixedLexemes
   | .fast c => fastChars.contains c = true
+  | .pct d ds => ∀ c ∈ d :: ds, isDigit c = true
+  | .dim d ds c cs => (∀ x ∈ d :: ds, isDigit x = true) ∧ inR identStart c = true ∧ ∀ x ∈ cs, inR identRest x = true
+  | .hash n ns => inR identRest n = true ∧ ∀ x ∈ ns, inR identRest x = true
 
 /-- the lexemes joined by single spaces -/
 def render : List Lex → Cps
@@ -745,6 +840,17 @@ theorem lex_head (t : Lex) (h : t.WF) : ∃ c w, t.text = c :: w ∧ inR lexHead
     have hc : fastChars.contains c = true := h
     simp only [fastChars, List.contains_cons, List.contains_nil, Bool.or_false, Bool.or_eq_true, beq_iff_eq] at hc
     rcases hc with rfl | rfl | rfl | rfl | rfl | rfl | rfl | rfl <;> decide
+  | pct d ds =>
+    refine ⟨d, ds ++ [37], rfl, ?_⟩
+    have := h d (by simp)
+    simp only [isDigit, Bool.and_eq_true, decide_eq_true_eq] at this
+    simp [inR, lexHeads]; omega
+  | dim d ds c cs =>
+    refine ⟨d, ds ++ c :: cs, rfl, ?_⟩
+    have := h.1 d (by simp)
+    simp only [isDigit, Bool.and_eq_true, decide_eq_true_eq] at this
+    simp [inR, lexHeads]; omega
+  | hash n ns => exact ⟨35, n :: ns, rfl, by decide⟩
 
 theorem render_head (t : Lex) (ts : List Lex) (h : t.WF) :
     ∃ c w, render (t :: ts) = c :: w ∧ inR lexHeads c = true := by
@@ -800,6 +906,53 @@ theorem lex_step (doC : Bool) (t : Lex) (h : t.WF) (stop : Cps) (hs : Sep stop) 
     · exact scan_fixed doC name w k hmem stop
     · exact valueOf_plain _ _ _ h1 h2
     · exact h3
+  | pct d ds =>
+    have hd0 : inR [(48, 57)] d = true := by
+      have := h d (by simp); simpa [inR, isDigit] using this
+    apply loop_step doC fuel (d :: ds ++ [37]) stop line col "PERCENTAGE" (by simp)
+    · intro c t e; simp only [List.cons_append, List.cons.injEq] at e; obtain ⟨rfl, _⟩ := e
+      exact not_fast_of_ranges [(48, 57)] (by decide) _ hd0
+    · have := scan_percentage doC d ds stop h
+      simpa [List.append_assoc] using this
+    · exact valueOf_plain _ _ _ (by decide) (by decide)
+    · decide
+  | dim d ds c cs =>
+    have hd0 : inR [(48, 57)] d = true := by
+      have := h.1 d (by simp); simpa [inR, isDigit] using this
+    apply loop_step doC fuel (d :: ds ++ c :: cs) stop line col "DIMENSION" (by simp)
+    · intro c' t e; simp only [List.cons_append, List.cons.injEq] at e; obtain ⟨rfl, _⟩ := e
+      exact not_fast_of_ranges [(48, 57)] (by decide) _ hd0
+    · have := scan_dimension doC d ds c cs stop h.1 h.2.1 h.2.2 hs
+      have e : (d :: ds ++ c :: cs).length = (d :: ds).length + (c :: cs).length := by simp; omega
+      rw [e]
+      simpa [List.append_assoc] using this
+    · apply valueOf_unesc _ _ _ (by decide) (by decide)
+      intro x hx e
+      have hx' : x ∈ d :: ds ∨ x ∈ c :: cs := by
+        rw [List.cons_append] at hx
+        rcases List.mem_cons.mp hx with e1 | hx
+        · left; rw [e1]; simp
+        · rcases List.mem_append.mp hx with h1 | h1
+          · left; exact List.mem_cons_of_mem _ h1
+          · right; exact h1
+      rcases hx' with hx' | hx'
+      · have := h.1 _ hx'; rw [e] at this; revert this; decide
+      · rcases List.mem_cons.mp hx' with e1 | hx'
+        · have := h.2.1; rw [← e1, e] at this; revert this; decide
+        · have := h.2.2 _ hx'; rw [e] at this; revert this; decide
+    · decide
+  | hash n ns =>
+    apply loop_step doC fuel (35 :: n :: ns) stop line col "HASH" (by simp)
+    · intro c t e; simp only [List.cons.injEq] at e; obtain ⟨rfl, _⟩ := e; decide
+    · exact scan_hash doC n ns stop h.1 h.2 hs
+    · apply valueOf_unesc _ _ _ (by decide) (by decide)
+      intro x hx e
+      rcases List.mem_cons.mp hx with e1 | hx
+      · rw [e] at e1; cases e1
+      · rcases List.mem_cons.mp hx with e1 | hx
+        · have := h.1; rw [← e1, e] at this; revert this; decide
+        · have := h.2 _ hx; rw [e] at this; revert this; decide
+    · decide
   | fast c =>
     have hc : fastChars.contains c = true := h
     refine ⟨line, col + 1, ?_⟩
